@@ -1,6 +1,7 @@
 """Contracts on IncludeIpsNode (a816/parse/nodes.py) -- C13: the patch reader against the IPS format definition."""
 import struct
 
+from a816.parse.codegen import generate_include_ips
 from a816.parse.nodes import IncludeIpsNode
 from vf.contracts.rt import assume, check, ghost
 
@@ -109,3 +110,15 @@ def include_ips_neutral_contract(node, addr):
     """The directive itself emits nothing and does not move the surrounding program's addresses."""
     check("emits_nothing", node.emit(addr) == b"")
     check("address_unchanged", node.pc_after(addr) is addr)
+
+
+def include_ips_per_expansion_contract(node, resolver, tok, path, content, offset, d1, d2):
+    """The same `.include_ips` directive expanded twice (a loop body, a macro body) with its delta expression evaluating differently: every
+    expansion reads the patch with ITS delta -- nothing of an earlier expansion is reused."""
+    ghost("fs", {path: content})
+    c1 = generate_include_ips(node, resolver, {}, tok)
+    resolver.current_scope.add_symbol("k", d2)
+    c2 = generate_include_ips(node, resolver, {}, tok)
+    check("one_node_per_expansion", len(c1) == 1 and len(c2) == 1 and c1[0] is not c2[0])
+    check("first_expansion_uses_its_delta", len(c1[0].blocks) == 1 and c1[0].blocks[0][0] == offset + d1)
+    check("second_expansion_uses_its_delta", len(c2[0].blocks) == 1 and c2[0].blocks[0][0] == offset + d2)
